@@ -1,10 +1,14 @@
 """C15 -- preloaded and cached intermediate results never change inversion outputs.
 
-Preloads.tla is a history machine: one shared Preloads object (any subset of the public slots), several successive inversions,
-reads in any order, with the in-place F += H fast path and the defensive copy modelled explicitly (CopyOnUse = FALSE yields
-TLC's counterexample: the second inversion reads F+H as F). TLC explores it exhaustively; simulated behaviours are replayed on
-real inversions of C04 lattice instances in both formalisms and for several object mixes (S->C), every read is abstracted
-(value = fresh + k*H?) and validated by Trace_Preloads.tla together with the bytes of the preloaded buffers (C->S)."""
+Preloads.tla is a history machine: one shared Preloads object (any subset of the ten public slots that the inversions consult),
+inversions of every make-up (formalism x numbers of mappers / linear function lists x own operated matrices), several successive
+inversions, reads in any order, with the in-place F += H fast path, the defensive copy and the embedding of the secondary
+(partial) quantities modelled explicitly (CopyOnUse / CopySecondary / EmbedMapperVector = FALSE yield TLC's counterexamples).
+TLC explores it exhaustively (wide: every subset x make-up, short histories; deep: the slots with dynamics, long histories);
+every (subset, make-up) instance the machine enumerates and simulated behaviours are replayed on real inversions of C04 lattice
+instances (S->C): each slot is filled from a reference inversion on the identical dataset and linear objects, the way
+Preloads.set_* does; every read is abstracted (value = fresh + k*H?) and validated by Trace_Preloads.tla together with the bytes
+of every preloaded buffer (arrays, values of dictionaries, w-tilde tables) before/after the read (C->S)."""
 import json
 
 import numpy as np
@@ -12,26 +16,58 @@ import numpy as np
 from harness import core, exact
 from harness.drivers import inv_common as ic
 
-ALL = ["w_tilde", "curvature_matrix", "regularization_matrix", "log_det_regularization_matrix_term", "operated_mapping_matrix"]
+PRIMARY = ["w_tilde", "curvature_matrix", "regularization_matrix", "log_det_regularization_matrix_term", "operated_mapping_matrix"]
+# secondary slot -> the attribute of the reference inversion that Preloads.set_curvature_matrix / set_linear_func_inversion_dicts copy
+SEC_ATTR = {
+    "data_vector_mapper": "_data_vector_mapper",
+    "curvature_matrix_mapper_diag": "_curvature_matrix_mapper_diag",
+    "mapper_operated_mapping_matrix_dict": "mapper_operated_mapping_matrix_dict",
+    "linear_func_operated_mapping_matrix_dict": "linear_func_operated_mapping_matrix_dict",
+    "data_linear_func_matrix_dict": "data_linear_func_matrix_dict",
+}
+SECONDARY = list(SEC_ATTR)
+ALL = PRIMARY + SECONDARY
+DEEP = ["curvature_matrix", "data_vector_mapper", "curvature_matrix_mapper_diag", "regularization_matrix", "data_linear_func_matrix_dict"]
 QS = ["data_vector", "curvature_matrix", "regularization_matrix", "curvature_reg_matrix", "reconstruction",
       "mapped_reconstructed_data", "regularization_term", "log_det_curvature_reg_matrix_term",
       "log_det_regularization_matrix_term", "operated_mapping_matrix"]
+# layouts (m = mapper, f / F = linear function list, o = function list with its own operated matrix) and the make-up they realise
+LAYOUTS = ["m", "F", "mf", "fm", "mm", "om", "mo", "omf"]
+FORMALISMS = ["mapping", "w_tilde"]
 
 
-def _cfg(kind, copy_on_use=True, single=True, runs=3, reads=3):
-    q = lambda s: '"' + s + '"'
-    c = ("CONSTANTS\n  Slots <- MCSlots\n  CopyOnUse = %s\n  MaxRuns = %d\n  MaxReads = %d\n  SingleReg = %s\n"
-         % ("TRUE" if copy_on_use else "FALSE", runs, reads, "TRUE" if single else "FALSE"))
-    if kind == "mc":
-        c += "SPECIFICATION Spec\nVIEW view\nINVARIANT OutputsEqualFresh\nINVARIANT PreloadBuffersNeverChange\nINVARIANT CachedCurvatureIsCurvature\n"
+def makeup_of(layout, formalism):
+    return {"f": formalism, "nm": layout.count("m"), "nf": len(layout) - layout.count("m"), "ov": "o" in layout}
+
+
+def _mk_key(mk):
+    return (int(mk["nm"]), int(mk["nf"]), bool(mk["ov"]))
+
+
+LAYOUTS_OF = {}
+for _l in LAYOUTS:
+    LAYOUTS_OF.setdefault(_mk_key(makeup_of(_l, "mapping")), []).append(_l)
+
+_B = lambda x: "TRUE" if x else "FALSE"
+DEFS = ("MCSlots == {" + ", ".join('"%s"' % s for s in ALL) + "}\n"
+        + "MCDeep == {" + ", ".join('"%s"' % s for s in DEEP) + "}\n"
+        + "MCMakeUps == {" + ", ".join('[f |-> "%s", nm |-> %d, nf |-> %d, ov |-> %s]' % (f, k[0], k[1], _B(k[2]))
+                                        for f in FORMALISMS for k in LAYOUTS_OF) + "}")
+TRACE_ENV = {"JAVA_TOOL_OPTIONS": "-XX:ParallelGCThreads=2 -XX:CICompilerCount=2"}
+
+
+def _cfg(kind, *, slots="MCSlots", copy_on_use=True, copy_secondary=True, embed=True, runs=3, reads=3, readset="Quantities"):
+    c = ("CONSTANTS\n  Slots <- %s\n  MakeUps <- MCMakeUps\n  CopyOnUse = %s\n  CopySecondary = %s\n  EmbedMapperVector = %s\n"
+         "  MaxRuns = %d\n  MaxReads = %d\n  ReadSet <- %s\n  DumpInstances = %s\n  KeepHistory = %s\n"
+         % (slots, _B(copy_on_use), _B(copy_secondary), _B(embed), runs, reads, readset, _B(kind == "wide"), _B(kind == "sim")))
+    if kind in ("wide", "deep"):
+        c += ("SPECIFICATION Spec\nVIEW view\nINVARIANT TypeOK\nINVARIANT OutputsEqualFresh\nINVARIANT PreloadBuffersNeverChange\n"
+              "INVARIANT SecondarySlotBuffersNeverChange\nINVARIANT CachedCurvatureIsCurvature\n")
     elif kind == "sim":
         c += "SPECIFICATION Spec\nINVARIANT OutputsEqualFresh\n"
     else:
         c += "SPECIFICATION TraceSpec\nPOSTCONDITION TraceAccepted\n"
     return c
-
-
-DEFS = "MCSlots == {" + ", ".join('"%s"' % s for s in ALL) + "}"
 
 
 def _instance(rng, layout):
@@ -54,6 +90,10 @@ def _instance(rng, layout):
             return inst
 
 
+def _layout_of(inst):
+    return "".join("m" if o["type"] == "mapper" else ("o" if o.get("override") else "f") for o in inst["objs"])
+
+
 def _k_of(value, fresh, H):
     """alpha: value = fresh + k*H ?  -> k, or -99"""
     v = np.asarray(value, dtype=float)
@@ -70,21 +110,34 @@ def _k_of(value, fresh, H):
     return -99
 
 
-def execute(beh, inst, formalism, reuse_objects):
+def _fp(v):
+    """fingerprint of the buffers behind one slot (array / dictionary of arrays / w-tilde tables / number)"""
+    if isinstance(v, dict):
+        return tuple([len(v)] + [exact.fp(np.asarray(x)) for x in v.values()])
+    if hasattr(v, "curvature_preload"):
+        return tuple(exact.fp(np.asarray(getattr(v, a))) for a in ("curvature_preload", "indexes", "lengths"))
+    if isinstance(v, np.ndarray):
+        return exact.fp(v)
+    return repr(v)
+
+
+def execute(beh, inst, formalism, reuse_objects, ref_formalism=None):
     """beh: list of events from the model (Preloads / NewInversion / Read q). Returns trace records."""
     import autoarray as aa
 
+    ref_formalism = ref_formalism or formalism
     single = len(inst["objs"]) == 1
+    mk = makeup_of(_layout_of(inst), formalism)
     ds, objs, skw = ic.build(inst)
-    st = lambda: aa.SettingsInversion(use_w_tilde=(formalism == "w_tilde"), **skw)
+    st = lambda f=formalism: aa.SettingsInversion(use_w_tilde=(f == "w_tilde"), **skw)
     try:
-        return _execute2(beh, inst, formalism, reuse_objects, aa, single, ds, objs, st)
+        return _execute2(beh, inst, formalism, reuse_objects, ref_formalism, aa, single, mk, ds, objs, st)
     except _ReferenceRaised as e:
         # the inversion WITHOUT preloads raises on a well-posed instance of the family: a verdict (rejected read), not a
         # machinery failure
-        return [{"a": "Preloads", "filled": []}, {"a": "NewInversion"},
+        return [{"a": "Preloads", "filled": [], "mk": mk, "ref": ref_formalism, "raised": False, "present": []}, {"a": "NewInversion"},
                 {"a": "Read", "q": "reconstruction", "formalism": formalism, "single": single, "raised": True,
-                 "err": f"inversion without preloads raised {e}", "k": 0, "pre_k": 0, "pre_ok": True, "cached": [], "filled": []}]
+                 "err": f"inversion without preloads raised {e}", "k": 0, "pre_k": 0, "pre_ok": True, "sec_changed": [], "cached": [], "filled": []}]
 
 
 class _ReferenceRaised(Exception):
@@ -107,18 +160,20 @@ def _reference(aa, ds, objs, st):
     return fresh, Hm
 
 
-def _execute2(beh, inst, formalism, reuse_objects, aa, single, ds, objs, st):
+def _execute2(beh, inst, formalism, reuse_objects, ref_formalism, aa, single, mk, ds, objs, st):
     try:
         fresh, Hm = _reference(aa, ds, objs, st)
     except Exception as e:  # noqa: BLE001
         raise _ReferenceRaised(f"{type(e).__name__}: {str(e)[:80]}")
     recs = []
     pre = None
-    pre_fp = {}
+    pre_fp, sec_fp = {}, {}
     filled = []
     for ev in beh:
         if ev["a"] == "Preloads":
             filled = sorted(ev["filled"]["__set__"] if isinstance(ev["filled"], dict) else ev["filled"])
+            rec = {"a": "Preloads", "filled": filled, "mk": mk, "ref": ref_formalism, "raised": False, "present": []}
+            recs.append(rec)
             kw = {}
             if "w_tilde" in filled:
                 kw["w_tilde"] = ds.w_tilde
@@ -131,9 +186,26 @@ def _execute2(beh, inst, formalism, reuse_objects, aa, single, ds, objs, st):
                 kw["log_det_regularization_matrix_term"] = float(fresh["log_det_regularization_matrix_term"])
             if "operated_mapping_matrix" in filled:
                 kw["operated_mapping_matrix"] = fresh["operated_mapping_matrix"].copy()
+            if any(s in SEC_ATTR for s in filled):
+                # the secondary slots hold the very objects a reference inversion on the identical dataset and linear objects
+                # delivers (Preloads.set_curvature_matrix / set_linear_func_inversion_dicts assign them without copying)
+                doing = "construction"
+                try:
+                    refinv = aa.Inversion(dataset=ds, linear_obj_list=objs, settings=st(ref_formalism))
+                    for s in filled:
+                        if s in SEC_ATTR:
+                            doing = SEC_ATTR[s]
+                            v = getattr(refinv, SEC_ATTR[s])
+                            if v is not None:
+                                kw[s] = v
+                except Exception as e:  # noqa: BLE001
+                    rec["raised"] = True
+                    rec["err"] = f"{doing} of the reference inversion: {type(e).__name__}: {str(e)[:80]}"
+                    return recs
+            rec["present"] = sorted(s for s in filled if s in kw)
             pre = aa.Preloads(**kw)
-            pre_fp = {k: exact.fp(v) for k, v in kw.items() if isinstance(v, np.ndarray)}
-            recs.append({"a": "Preloads", "filled": filled})
+            pre_fp = {k: _fp(v) for k, v in kw.items() if k in PRIMARY and k != "curvature_matrix"}
+            sec_fp = {k: _fp(v) for k, v in kw.items() if k in SEC_ATTR}
             inv = None
         elif ev["a"] == "NewInversion":
             if reuse_objects:
@@ -145,12 +217,10 @@ def _execute2(beh, inst, formalism, reuse_objects, aa, single, ds, objs, st):
         else:
             q = ev["q"]
             r = {"a": "Read", "q": q, "formalism": formalism, "single": single, "raised": False, "k": 0, "pre_k": 0, "pre_ok": True,
-                 "cached": [], "filled": filled}
+                 "sec_changed": [], "cached": [], "filled": filled}
             try:
                 val = getattr(inv, q)
                 r["k"] = _k_of(val, fresh[q], Hm if q in ("curvature_matrix", "curvature_reg_matrix") else None)
-                if q == "curvature_reg_matrix" and r["k"] != -99:
-                    pass
             except Exception as e:
                 r["raised"] = True
                 r["err"] = f"{type(e).__name__}: {str(e)[:80]}"
@@ -158,8 +228,13 @@ def _execute2(beh, inst, formalism, reuse_objects, aa, single, ds, objs, st):
                 if getattr(pre, "curvature_matrix", None) is not None:
                     r["pre_k"] = _k_of(pre.curvature_matrix, fresh["curvature_matrix"], Hm)
                 for k, f0 in pre_fp.items():
-                    if k != "curvature_matrix" and exact.fp(getattr(pre, k)) != f0:
+                    if _fp(getattr(pre, k)) != f0:
                         r["pre_ok"] = False
+                for k, f0 in sec_fp.items():  # edge-triggered: every change of a secondary buffer is reported at the read that made it
+                    f1 = _fp(getattr(pre, k))
+                    if f1 != f0:
+                        r["sec_changed"].append(k)
+                        sec_fp[k] = f1
             r["cached"] = sorted(set(inv.__dict__) & {"curvature_matrix", "curvature_reg_matrix"})
             recs.append(r)
     return recs
@@ -167,10 +242,11 @@ def _execute2(beh, inst, formalism, reuse_objects, aa, single, ds, objs, st):
 
 def _exec_many(args):
     out = []
-    for beh, inst, formalism, reuse in args:
-        rr = execute(beh, inst, formalism, reuse)
+    for job in args:
+        beh, inst, formalism, reuse, reff = job
+        rr = execute(beh, inst, formalism, reuse, reff)
         for r in rr:
-            r["_ctx"] = {"behaviour": beh, "instance": inst, "formalism": formalism, "reuse_objects": reuse}
+            r["_ctx"] = {"behaviour": beh, "instance": inst, "formalism": formalism, "reuse_objects": reuse, "ref_formalism": reff}
         out.append(rr)
     return out
 
@@ -180,35 +256,23 @@ def validate(ctx, episodes, tag):
 
     recs = []
     ctxs = {}
-    # SingleReg is a constant of the specification: validate single-object and several-object episodes separately
-    episodes = sorted(episodes, key=lambda ep: not any(r.get("single") for r in ep))
-    for ep in episodes:
+    # interleave the episodes over the chunks (costly and cheap ones spread evenly); a chunk holds whole episodes
+    nrec = sum(len(ep) for ep in episodes)
+    nch = max(1, min(32, -(-nrec // 2500)))
+    chunks = [[] for _ in range(nch)]
+    for k, ep in enumerate(episodes):
         for r in ep:
             c = r.pop("_ctx", None)
             r["id"] = len(recs)
             ctxs[r["id"]] = c
             recs.append(r)
-    # chunk at episode boundaries (each starts with a Preloads record)
-    chunks, cur, cur_single = [], [], None
-    k = 0
-    while k < len(recs):
-        e = k + 1
-        while e < len(recs) and recs[e]["a"] != "Preloads":
-            e += 1
-        ep_single = any(r.get("single") for r in recs[k:e])
-        if cur and (len(cur) >= 2500 or ep_single != cur_single):
-            chunks.append((cur_single, cur))
-            cur = []
-        cur_single = ep_single
-        cur.extend(recs[k:e])
-        k = e
-    if cur:
-        chunks.append((cur_single, cur))
+            chunks[k % nch].append(r)
+    chunks = [ch for ch in chunks if ch]
     rejects, drift = [], 0
 
     def one(kc):
-        k, (sgl, ch) = kc
-        res, rej = ctx.validate_trace("Trace_Preloads", _cfg("trace", single=bool(sgl), runs=99, reads=9999), ch, tag=f"{tag}_{k}", defs=DEFS)
+        k, ch = kc
+        res, rej = ctx.validate_trace("Trace_Preloads", _cfg("trace", runs=99, reads=9999), ch, tag=f"{tag}_{k}", defs=DEFS, env=TRACE_ENV)
         return rej, len(res.by_kind("drift"))
 
     with cf.ThreadPoolExecutor(max_workers=min(16, len(chunks) or 1)) as ex:
@@ -218,72 +282,128 @@ def validate(ctx, episodes, tag):
     for rj in rejects:
         rec = recs[rj["id"]]
         c = ctxs.get(rj["id"]) or {}
-        ctx.violation(rj["sig"], f"read {rec['q']} ({rec['formalism']}, filled={rec['filled']}): k={rec['k']} pre_k={rec['pre_k']} "
-                      f"pre_ok={rec['pre_ok']}{' ' + rec.get('err', '') if rec['raised'] else ''} failed {rj['clauses']}",
-                      {"replay": c, "record": rec, "failed_clauses": rj["clauses"], "spec_wanted": rj.get("want")}, cls=",".join(rj["clauses"]))
+        if rec["a"] == "Preloads":
+            what = f"filling {rec['filled']} from a {rec['ref']} reference inversion, make-up {rec['mk']}: {rec.get('err', '')} failed {rj['clauses']}"
+        else:
+            what = (f"read {rec['q']} ({rec['formalism']}, layout {_layout_of(c['instance']) if c else '?'}, filled={rec['filled']}): k={rec['k']} "
+                    f"pre_k={rec['pre_k']} pre_ok={rec['pre_ok']} changed={rj.get('slot', rec['sec_changed'])}"
+                    f"{' ' + rec.get('err', '') if rec['raised'] else ''} failed {rj['clauses']}")
+        ctx.violation(rj["sig"], what, {"replay": c, "record": rec, "failed_clauses": rj["clauses"], "spec_wanted": rj.get("want")},
+                      cls=",".join(rj["clauses"]))
     return rejects, drift
 
 
+def _script(rng, n1, n2):
+    """a behaviour of the machine chosen by the driver: two successive inversions, n1 / n2 reads in a drawn order"""
+    a = [QS[int(k)] for k in rng.permutation(len(QS))[:n1]]
+    b = [QS[int(k)] for k in rng.permutation(len(QS))[:n2]]
+    return [{"a": "NewInversion"}] + [{"a": "Read", "q": q} for q in a] + [{"a": "NewInversion"}] + [{"a": "Read", "q": q} for q in b]
+
+
 def run(ctx):
+    import concurrent.futures as cf
+
     quick = ctx.quick
     rng = np.random.default_rng(ctx.seed)
-    ctx.bounds = {"slots": ALL, "runs": 3, "reads_per_run": 3 if quick else 5, "simulated_behaviours": 120 if quick else 8000,
-                  "layouts": ["m", "F (one regularised function list)", "mf", "fm", "mm", "om / mo / omf (o = function list with its own operated matrix)"], "formalisms": ["mapping", "w_tilde"]}
-    reads = ctx.bounds["reads_per_run"]
-    for single in (True, False):
-        ctx.tlc("Preloads", _cfg("mc", True, single, 3, reads), defs=DEFS, tag=f"MC_Preloads_{'single' if single else 'multi'}", timeout=900)
+    reads = 3 if quick else 5
+    ctx.bounds = {"slots": ALL, "slots_of_the_deep_machine": DEEP, "make_ups": [dict(zip(("nm", "nf", "ov"), k)) for k in LAYOUTS_OF],
+                  "wide_machine": "every subset of the 10 slots x 12 make-ups, 2 runs x 2 reads, one read per class of equal dynamics",
+                  "deep_machine": f"every subset of the 5 slots with dynamics x 12 make-ups, 3 runs x {reads} reads, every quantity",
+                  "simulated_behaviours": 120 if quick else 8000,
+                  "layouts": ["m", "F (one regularised function list)", "mf", "fm", "mm", "om / mo / omf (o = function list with its own operated matrix)"],
+                  "formalisms": FORMALISMS, "reference_formalism": "same as the inversions; the other one for every 4th behaviour"}
+    # ---- TLC on the bounded machine: wide (all subsets x make-ups, dumps its instances) and deep (long histories) side by side
+    with cf.ThreadPoolExecutor(max_workers=2) as ex:
+        fw = ex.submit(ctx.tlc, "Preloads", _cfg("wide", runs=2, reads=2, readset="ClassRepresentatives"), defs=DEFS, tag="MC_Preloads_wide",
+                       timeout=900, coverage=not quick)
+        fd = ex.submit(ctx.tlc, "Preloads", _cfg("deep", slots="MCDeep", runs=3, reads=reads), defs=DEFS, tag="MC_Preloads_deep",
+                       timeout=900, coverage=True, workers=4)
+        wide, deep = fw.result(), fd.result()
+    insts = wide.by_kind("inst")
+    if len(insts) != 2 ** len(ALL) * 2 * len(LAYOUTS_OF):
+        raise core.MachineryError(f"the machine dumped {len(insts)} instances, expected {2 ** len(ALL) * 2 * len(LAYOUTS_OF)}")
     ctx.exhaustive = True
     if not quick:
-        bug = ctx.tlc("Preloads", _cfg("mc", False, True, 2, 2), defs=DEFS, tag="MC_Preloads_nocopy", timeout=300, allow_errors=True)
-        ctx.note(f"CopyOnUse=FALSE (design-level counterexample expected): {bug.errors[:1]}")
+        for nm, kw in (("CopyOnUse", {"copy_on_use": False}), ("CopySecondary", {"copy_secondary": False}), ("EmbedMapperVector", {"embed": False})):
+            bug = ctx.tlc("Preloads", _cfg("deep", slots="MCDeep", runs=2, reads=2, **kw), defs=DEFS, tag=f"MC_Preloads_no_{nm}", timeout=300,
+                          allow_errors=True, workers=4)
+            if not bug.errors:
+                raise core.MachineryError(f"{nm}=FALSE gave no counterexample: the machine does not depend on the switch")
+            ctx.note(f"{nm}=FALSE (design-level counterexample expected): {bug.errors[:1]}")
     jobs = []
+
+    def add(beh, inst, formalism):
+        j = len(jobs)
+        other = FORMALISMS[1 - FORMALISMS.index(formalism)]
+        jobs.append((beh, inst, formalism, bool((j // 2) % 2), other if j % 4 == 3 else formalism))
+
+    # ---- behaviours simulated by TLC
     nsim = ctx.bounds["simulated_behaviours"]
-    for single in (True, False):
-        simdir = ctx.work / f"sim_{single}"
-        simdir.mkdir(exist_ok=True)
-        ctx.tlc("Preloads", _cfg("sim", True, single, 3, reads), defs=DEFS, tag=f"SIM_{single}", timeout=600,
-                simulate=f"file={simdir}/b,num={nsim // 2}", depth=3 * (reads + 1) + 1, seed=ctx.seed, workers=1)
-        for f in sorted(simdir.iterdir()):
-            states = core.parse_sim_file(f)
-            if not states:
-                continue
-            beh = states[-1][1]["hist"]
-            ctx.states += len(beh)
-            ctx.transitions += len(beh) - 1
-            layout = ["m", "F"][len(jobs) % 2] if single else ["mf", "fm", "mm", "om", "mo", "omf"][len(jobs) % 6]
-            inst = _instance(rng, layout)
-            jobs.append((beh, inst, ["mapping", "w_tilde"][len(jobs) % 2], bool((len(jobs) // 2) % 2)))
-    # systematic family (behaviours of the same machine, chosen rather than drawn): every single slot and the full set x every
-    # layout x both formalisms, two successive inversions reading every quantity (forward, then backward)
-    sys_layouts = ["m", "F", "mf", "fm", "mm", "om", "mo", "omf"]
-    slotsets = [[s_] for s_ in ALL] + [list(ALL)]
+    simdir = ctx.work / "sim"
+    simdir.mkdir(exist_ok=True)
+    ctx.tlc("Preloads", _cfg("sim", runs=3, reads=reads), defs=DEFS, tag="SIM", timeout=600,
+            simulate=f"file={simdir}/b,num={nsim}", depth=3 * (reads + 1) + 1, seed=ctx.seed, workers=1)
+    for f in sorted(simdir.iterdir()):
+        states = core.parse_sim_file(f)
+        if not states:
+            continue
+        beh = states[-1][1]["hist"]
+        ctx.states += len(beh)
+        ctx.transitions += len(beh) - 1
+        mk = beh[0]["mk"]
+        lay = LAYOUTS_OF[_mk_key(mk)]
+        add(beh, _instance(rng, lay[len(jobs) % len(lay)]), mk["f"])
+    nsimjobs = len(jobs)
+    # ---- every (subset, make-up) instance the wide machine enumerated (quick: every subset in one make-up, rotating with the seed)
+    insts.sort(key=lambda r: (sorted(r["filled"]), r["mk"]["f"], _mk_key(r["mk"])))
+    nmk = 2 * len(LAYOUTS_OF)
+    subsets_realised = set()
+    for k, r in enumerate(insts):
+        sub, j = divmod(k, nmk)
+        if quick and (sub + ctx.seed) % nmk != j:
+            continue
+        lay = LAYOUTS_OF[_mk_key(r["mk"])]
+        beh = [{"a": "Preloads", "filled": sorted(r["filled"])}] + (_script(rng, 6, 3) if quick else _script(rng, 10, 4))
+        add(beh, _instance(rng, lay[(sub + len(jobs)) % len(lay)]), r["mk"]["f"])
+        subsets_realised.add(tuple(sorted(r["filled"])))
+    if len(subsets_realised) != 2 ** len(ALL):
+        raise core.MachineryError(f"only {len(subsets_realised)} of the {2 ** len(ALL)} subsets of slots were realised")
+    ctx.bounds["subset_instances_realised"] = len(jobs) - nsimjobs
+    # ---- systematic family (behaviours of the same machine, chosen rather than drawn): every single slot, the primary / secondary /
+    # full sets x every layout x both formalisms, two successive inversions reading every quantity (forward, then backward)
+    slotsets = [[s_] for s_ in ALL] + [list(PRIMARY), list(SECONDARY), list(ALL)]
     nsys = 0
-    for li, layout in enumerate(sys_layouts):
+    for li, layout in enumerate(LAYOUTS):
         for si, ss in enumerate(slotsets):
-            if quick and (li + si) % 2:
+            if quick and (li + si + ctx.seed) % 2:
                 continue
-            for formalism in ("mapping", "w_tilde"):
+            for formalism in FORMALISMS:
                 beh = [{"a": "Preloads", "filled": ss}, {"a": "NewInversion"}] + [{"a": "Read", "q": q} for q in QS] \
                       + [{"a": "NewInversion"}] + [{"a": "Read", "q": q} for q in reversed(QS)]
-                jobs.append((beh, _instance(rng, layout), formalism, bool(nsys % 2)))
+                add(beh, _instance(rng, layout), formalism)
                 nsys += 1
     ctx.bounds["systematic_behaviours"] = nsys
-    groups = [jobs[k : k + 4] for k in range(0, len(jobs), 4)]
+    groups = [jobs[k : k + 8] for k in range(0, len(jobs), 8)]
     episodes = []
     for part in core.pmap(_exec_many, groups):
         episodes.extend(part)
     ctx.replayed = len(jobs)
-    ctx.sample({"behaviour_from_TLC": jobs[0][0], "layout": [o["type"] for o in jobs[0][1]["objs"]], "formalism": jobs[0][2]})
-    ctx.sample({"recorded_reads": [{k: v for k, v in r.items() if k != "_ctx"} for r in episodes[0][:4]]})
+    ctx.sample({"behaviour_from_TLC": jobs[0][0], "layout": _layout_of(jobs[0][1]), "formalism": jobs[0][2]})
+    ctx.sample({"instance_enumerated_by_TLC": insts[len(insts) // 2], "recorded": [{k: v for k, v in r.items() if k != "_ctx"} for r in episodes[nsimjobs][:4]]})
     rejects, drift = validate(ctx, episodes, "C15")
-    ctx.note(f"{len(jobs)} behaviours replayed on real inversions; model drift records (cache set differs, informational): {drift}")
+    ctx.note(f"{len(jobs)} behaviours replayed on real inversions ({nsimjobs} simulated by TLC, {len(jobs) - nsimjobs - nsys} enumerated "
+             f"(subset, make-up) instances, {nsys} systematic); model drift records (cache set / slot contents differ, informational): {drift}")
     ctx.assumptions = ["values are compared with a fresh inversion on identical inputs within 1e-9 relative; curvature-like values are "
-                       "abstracted to the multiplicity k in fresh + k*H", "preloaded arrays are fingerprinted (SHA-256) before/after every read"]
+                       "abstracted to the multiplicity k in fresh + k*H",
+                       "every preloaded buffer (arrays, values of the dictionaries, w-tilde tables) is fingerprinted (SHA-256) before/after every read",
+                       "every mapper is regularised (an unregularised mapper makes the mapper diagonal blocks of the two formalisms differ by the "
+                       "diagonal constant, so slots filled by a reference of the other formalism would not be 'computed from identical inputs')",
+                       "slots consumed outside the inversions (relocated_grid, mapper_list, image-plane mesh grids) are not part of the machine"]
 
 
 def replay(ctx, rp):
     c = rp["replay"]
-    rr = execute(c["behaviour"], c["instance"], c["formalism"], c["reuse_objects"])
+    rr = execute(c["behaviour"], c["instance"], c["formalism"], c["reuse_objects"], c.get("ref_formalism"))
     for r in rr:
         r["_ctx"] = c
     rej, drift = validate(ctx, [rr], "replay")
